@@ -13,13 +13,13 @@ Open Scope Z_scope.
    [fresh_line]: what the parser returns has wrapper_msg = None (NMEASentence.__init__). *)
 Theorem C18_stream : forall ins, Forall fresh_line ins ->
   map (map a_wrapper) (fst (asm_run stream_step asm_init ins)) =
-  spec_wrapper (events ins (map has_delivery (fst (asm_run stream_step asm_init ins)))).
+  spec_wrapper (asm_events ins (map has_delivery (fst (asm_run stream_step asm_init ins)))).
 Proof. exact stream_wrappers_correct. Qed.
 Print Assumptions C18_stream.
 
 Theorem C18_queue : forall ins, Forall fresh_line ins ->
   map (map a_wrapper) (fst (asm_run queue_step asm_init ins)) =
-  spec_wrapper (events ins (map has_delivery (fst (asm_run queue_step asm_init ins)))).
+  spec_wrapper (asm_events ins (map has_delivery (fst (asm_run queue_step asm_init ins)))).
 Proof. exact queue_wrappers_correct. Qed.
 Print Assumptions C18_queue.
 
@@ -80,5 +80,5 @@ Example C18_unrepaired_queue_refuted :
   map (map a_wrapper) (fst (asm_run queue_step_unrepaired asm_init ex_inputs)) =
     [ []; []; []; []; []; [None]; [Some (ex_gh 3)]; []; [Some (ex_gh 4)] ] /\
   map (map a_wrapper) (fst (asm_run queue_step_unrepaired asm_init ex_inputs)) <>
-  spec_wrapper (events ex_inputs (map has_delivery (fst (asm_run queue_step_unrepaired asm_init ex_inputs)))).
+  spec_wrapper (asm_events ex_inputs (map has_delivery (fst (asm_run queue_step_unrepaired asm_init ex_inputs)))).
 Proof. split; [vm_compute; reflexivity|vm_compute; discriminate]. Qed.
